@@ -8,6 +8,7 @@ from warnings import warn
 from quansino.mc.canonical import Canonical
 from quansino.mc.contexts import ExchangeContext
 from quansino.mc.criteria import CanonicalCriteria, GrandCanonicalCriteria
+from quansino.moves.composite import CompositeMove
 from quansino.moves.displacement import DisplacementMove
 from quansino.moves.exchange import ExchangeMove
 
@@ -206,10 +207,25 @@ class GrandCanonical(
 
     def save_state(self) -> None:
         """Save the current state of the context and update move labels."""
-        for move_storage in self.moves.values():
-            move_storage.move.on_atoms_changed(
-                self.context._added_indices, self.context._deleted_indices
-            )
+        # a move object can sit in the table more than once (under two names, inside `move * n`, inside a
+        # composite next to a stand-alone entry): each object must hear about the change exactly once
+        notified: set[int] = set()
+        pending = [move_storage.move for move_storage in self.moves.values()]
+
+        while pending:
+            move = pending.pop(0)
+
+            if id(move) in notified:
+                continue
+
+            notified.add(id(move))
+
+            if isinstance(move, CompositeMove):
+                pending.extend(move.moves)
+            else:
+                move.on_atoms_changed(
+                    self.context._added_indices, self.context._deleted_indices
+                )
 
         super().save_state()
 
